@@ -172,15 +172,17 @@ fn reversed_le3(b: [u8; 3], n: usize) -> [u8; 3] {
     }
 }
 
-fn any_str<const N: usize>() -> [u8; 3] {
+fn any_str_le3() -> ([u8; 3], usize) {
     let b: [u8; 3] = kani::any();
-    kani::assume(valid_utf8_le3(b, N));
-    b
+    let n: usize = kani::any();
+    kani::assume(n <= 3);
+    kani::assume(valid_utf8_le3(b, n));
+    (b, n)
 }
 
-fn mk_string<const N: usize>(b: &[u8; 3], safe: bool) -> Value {
+fn mk_string(b: &[u8; 3], n: usize, safe: bool) -> Value {
     // SAFETY: valid_utf8_le3 was assumed
-    let s = unsafe { std::str::from_utf8_unchecked(&b[..N]) };
+    let s = unsafe { std::str::from_utf8_unchecked(&b[..n]) };
     if safe { Value::safe_string(s) } else { Value::normal_string(s) }
 }
 
@@ -197,15 +199,71 @@ fn str_bytes_eq(v: &Value, want: &[u8]) -> bool {
     }
 }
 
-fn check_len<const N: usize>() {
-    let b = any_str::<N>();
-    let v = mk_string::<N>(&b, false);
-    assert!(v.len() == Some(nchars_le3(b, N)));
+/// `core::str::count::do_count_chars` is the word-at-a-time path of `chars().count()` taken only
+/// for strings of >= 32 bytes: replacing it by a panic *asserts* that it is unreachable for the
+/// bounded inputs (sound: reaching it fails the harness) and spares CBMC its symbolic execution.
+fn never_do_count_chars(_s: &str) -> usize {
+    panic!("do_count_chars reached on a short string")
+}
+
+#[kani::proof]
+#[kani::unwind(5)]
+#[kani::stub(core::str::count::do_count_chars, never_do_count_chars)]
+fn string_len_le3() {
+    let (b, n) = any_str_le3();
+    let v = mk_string(&b, n, kani::any());
+    assert!(v.len() == Some(nchars_le3(b, n)));
     std::mem::forget(v);
 }
 
 #[kani::proof]
 #[kani::unwind(5)]
-fn string_len_3() {
-    check_len::<3>();
+#[kani::stub(core::str::count::do_count_chars, never_do_count_chars)]
+fn string_reverse_le3() {
+    let (b, n) = any_str_le3();
+    let v = mk_string(&b, n, false);
+    let r = v.reverse();
+    let want = reversed_le3(b, n);
+    match &r {
+        Ok(out) => assert!(str_bytes_eq(out, &want[..n])),
+        Err(_) => {
+            assert!(false);
+        }
+    }
+    std::mem::forget(r);
+    std::mem::forget(v);
+}
+
+#[kani::proof]
+#[kani::unwind(5)]
+#[kani::stub(core::str::count::do_count_chars, never_do_count_chars)]
+fn string_iter_le3() {
+    use crate::vm::for_loop::create_for_loop_iterator;
+    let (b, n) = any_str_le3();
+    let v = mk_string(&b, n, false);
+    let mut it = create_for_loop_iterator(&v).unwrap();
+    let total = nchars_le3(b, n);
+    assert!(it.size_hint() == (total, Some(total)));
+    let one = |x: u8| x < 0x80;
+    let mut pos = 0usize;
+    let mut seen = 0usize;
+    while pos < n {
+        let w = if one(b[pos]) { 1 } else if b[pos] < 0xE0 { 2 } else { 3 };
+        let item = it.next();
+        match &item {
+            Some((None, c)) => assert!(str_bytes_eq(c, &b[pos..pos + w])),
+            _ => {
+                assert!(false);
+            }
+        }
+        std::mem::forget(item);
+        pos += w;
+        seen += 1;
+    }
+    assert!(pos == n && seen == total);
+    let end = it.next();
+    assert!(end.is_none());
+    std::mem::forget(end);
+    std::mem::forget(it);
+    std::mem::forget(v);
 }
